@@ -258,6 +258,16 @@ def id_record(full_cfg: dict, text: str, ctx: dict, init_data, w, stats: dict) -
         rec["trace_ids"] = {"pipeline_id": st.get("pipeline_id"), "semantic_id": meta.get("semantic_id"),
                             "config_id": meta.get("config_id"), "node_semantic_ids": meta.get("node_semantic_ids"),
                             "uuids": [n["node_uuid"] for n in (st.get("pipeline_spec_canonical") or {}).get("nodes", [])]}
+        # the same Pipeline object runs the configuration again (what a run-space launch does): the identities attached to
+        # the second pipeline_start are still those of the configuration
+        rr2 = harness.run_scenario(sc, w, trace_mode="file", detail=detail, pipeline=rr["pipeline"], name=f"idr2_{len(w.exec_log)}")
+        recs2, _ = harness.parse_lines(rr2["emissions"])
+        st2 = next((x for x in recs2 if x.get("record_type") == "pipeline_start"), None)
+        if st2 is not None:
+            meta2 = st2.get("meta") or {}
+            rec["trace_ids_second_run"] = {"pipeline_id": st2.get("pipeline_id"), "semantic_id": meta2.get("semantic_id"),
+                                           "config_id": meta2.get("config_id"), "node_semantic_ids": meta2.get("node_semantic_ids"),
+                                           "uuids": [n["node_uuid"] for n in (st2.get("pipeline_spec_canonical") or {}).get("nodes", [])]}
     return rec
 
 
@@ -416,6 +426,10 @@ def compare(recs: list[dict]) -> list[dict]:
                 out.append(oracles.V("paths", "config_id_inspect_vs_pipeline_start", f"{where}: inspect {ins.get('config_id')} vs trace {tr['config_id']}"))
             if tr["node_semantic_ids"] != pi["node_semantic_ids"]:
                 out.append(oracles.V("paths", "node_semantic_ids_inspection_vs_pipeline_start", f"{where}: {pi['node_semantic_ids']} vs {tr['node_semantic_ids']}"))
+            tr2 = r.get("trace_ids_second_run")
+            if tr2 is not None and tr2 != tr:
+                out.append(oracles.V("paths", f"pipeline_start_of_second_run_of_one_pipeline:{_field(_first_diff(tr, tr2))}",
+                                     f"{where}: first run {tr} vs second run {tr2}"))
     return out
 
 
